@@ -53,6 +53,13 @@ Proof.
 Qed.
 
 
+Lemma fail_here_refines exp s :
+  alt (fail_here K toks spn exp s) = fail_at K toks spn (alt s) (cur s) exp /\ sec (fail_here K toks spn exp s) = sec s.
+Proof.
+  unfold fail_here, fail_at, next. destruct (nth_error toks (cur s)) as [t|];
+    rewrite rewind_save0 by reflexivity; cbn; split; reflexivity.
+Qed.
+
 Lemma ok_post_inv m s v s1 x : ok_post m s v s1 x -> inv s1.
 Proof. intros (v' & p' & ems & _ & _ & Hc & _ & Hu). unfold Base.inv. now rewrite Hc. Qed.
 
@@ -664,7 +671,8 @@ Proof.
     + eapply (choice_loop_refines _ _ IH) in H; eauto.
   - (* ChoiceVec *)
     destruct gs as [|g1 gs].
-    + inv_pair H. exists []. cbn. rewrite app_nil_r. split; reflexivity.
+    + cbn [q_emptychoice_none no_quirks] in H. inv_pair H. exists [].
+      destruct (fail_here_refines [] s) as (Ha & Hs2). rewrite Ha, Hs2, app_nil_r. split; reflexivity.
     + eapply (choicevec_loop_refines _ _ IH) in H; eauto. exists []. now rewrite app_nil_r.
   - (* OrNot *)
     destruct (go n m g ctx s) as [r1 s2] eqn:E. use IH E.
@@ -738,8 +746,8 @@ Proof.
       destruct (drive a b c d e f g h pa 0 [] s) as [[[r0 acc'] fl] s2] eqn:E end.
     eapply (drive_refines _ _ IH s) with (sacc := []) (sacce := []) in E; eauto; [|now rewrite app_nil_r].
     destruct r0; try (destruct fl; trivial_res H).
-    + destruct E as (sitems & ems & -> & Hrel & Hsec & Hu). destruct fl; inv_pair H.
-      * eexists. split; [reflexivity|]. exact Hsec.
+    + destruct E as (sitems & ems & -> & Hrel & Hsec & Hu). destruct fl; cbn [q_exact_noalt no_quirks] in H; inv_pair H.
+      * destruct (fail_here_refines [pSomethingElse] s2) as (Ha & Hs2). exists ems. rewrite Ha, Hs2. split; [reflexivity|exact Hsec].
       * do 3 eexists. split; [reflexivity|].
         repeat split; auto. destruct m; [|reflexivity]. cbn. rewrite (irel_vals _ _ Hrel). reflexivity.
     + destruct E as (ext & -> & Hsec). destruct fl; inv_pair H; fin_err.
